@@ -12,7 +12,7 @@ REPO = os.environ.get('RBVERIF_REPO', '/repo')
 UNITS = os.path.join(ROOT, 'units')
 SCRATCH_BASE = os.environ.get('RBVERIF_SCRATCH', '/var/tmp/rbverif')
 KNOWN_FINDINGS = os.path.join(ROOT, 'known_findings.json')
-REPLAY_DIR = os.path.join(ROOT, 'replays')
+REPLAY_DIR = os.environ.get('RBVERIF_REPLAY_DIR') or os.path.join(ROOT, 'replays')
 NCPU = os.cpu_count() or 4
 
 
